@@ -351,3 +351,36 @@ CASES += [
         } else if''', '''            Some(unsafe { Self::new(confirm, Some(debt)) })
         } else if''')]),
 ]
+
+CASES += [
+    dict(name='b-pay-loop-for-each', kind='benign', props=ALL, expect=[],
+         edits=[(M, '''                for slot in all_slots {
+                    // Note: Release is enough even here. That makes sure the increment is
+                    // visible to whoever might acquire on this slot and can't leak below this.
+                    // And we are the ones doing decrements anyway.
+                    if slot.pay::<T>(ptr) {
+                        // Pre-pay one more, for another future slot
+                        T::inc(&val);
+                    }
+                }''', '''                all_slots.for_each(|slot| {
+                    if slot.pay::<T>(ptr) {
+                        // Pre-pay one more, for another future slot
+                        T::inc(&val);
+                    }
+                });''')]),
+    dict(name='m-for-each-take-7', kind='mutant', props=['C01'], expect=['C01'],
+         edits=[(M, '''                for slot in all_slots {
+                    // Note: Release is enough even here. That makes sure the increment is
+                    // visible to whoever might acquire on this slot and can't leak below this.
+                    // And we are the ones doing decrements anyway.
+                    if slot.pay::<T>(ptr) {
+                        // Pre-pay one more, for another future slot
+                        T::inc(&val);
+                    }
+                }''', '''                all_slots.take(8).for_each(|slot| {
+                    if slot.pay::<T>(ptr) {
+                        // Pre-pay one more, for another future slot
+                        T::inc(&val);
+                    }
+                });''')]),
+]
